@@ -9,26 +9,29 @@ from ref import rfc9171, bpsec_cose
 
 ID = 'C03'
 LEVEL = 'fault_enumeration'
-RULE = ('per case one security configuration (COSE_Mac0 with HMAC-256/384/512; targets = '
+RULE = ('per case one security configuration (COSE_Mac0 with HMAC-256/384/512, or COSE_Sign1 with ES256 and the certificate chain in '
+        'x5chain, alone or together with a MAC0 over a second target; one or two security associations in either order; targets = '
         'payload or payload + extension block; 0-2 further extension blocks; CRC types) applied by the real source node, or a foreign '
         'source built by ref/bpsec_cose.py with another AAD scope ({0,-1,-2} combinations, BTSD of a third block in scope, protected '
         'additional header). Alterations in flight: every single-bit flip in a drawn window of the transmitted encoding (with and '
         'without CRC fix-up), field-level rewrites (each primary field, target data / type / flags, security source, scope, protected '
-        'header, tag, kid) and wrong / missing key at the receiver; each altered copy is a freshly sourced bundle so duplicate '
+        'header, tag / signature, kid) and wrong / missing key (for signatures: wrong / missing trust root) at the receiver; each altered copy is a freshly sourced bundle so duplicate '
         'suppression cannot explain non-delivery. The reference decoder classifies each copy as covered / surely-uncovered / other. '
         'One evaluation = one altered reception; distinct = (configuration digest, alteration).')
 COMPONENTS = bc.COMPONENTS
-PROBES = ('class.covered', 'class.uncovered', 'class.other', 'kind.mac0', 'kind.foreign', 'kind.split_assoc', 'alt.bitflip', 'alt.field', 'alt.wrong-key',
+PROBES = ('class.covered', 'class.uncovered', 'class.other', 'kind.mac0', 'kind.sign1', 'kind.foreign', 'kind.split_assoc', 'alt.bitflip', 'alt.field', 'alt.wrong-key',
           'alt.missing-key', 'cov.primary', 'cov.target-btsd', 'cov.target-meta', 'cov.source', 'cov.scope', 'cov.tag', 'cov.cose-protected')
 ASSUMPTIONS = ['schedules and clocks play no role: the deciding dimension is the corruption fault and the key / scope configuration',
                'COSE_Mac / COSE_Encrypt with wrapped content keys need the pycose fork pinned in pyproject.toml; upstream pycose 1.1.0 installed here raises in those paths, so they are not exercised',
-               'COSE_Sign1 with x5chain is not exercised in this round (certvalidator is a stub here)']
+               'COSE_Sign1 runs with a deterministic two-certificate PKI (scenarios/pki.py); chain validation is done by the certvalidator shim '
+               '(signatures, validity, key usage, extended key usage checked with cryptography); key identification by thumbprint (x5t) cannot be '
+               'exercised: the upstream pycose installed here cannot encode it']
 CHUNK = 4
 BUDGET = {'quick': 40, 'thorough': 600}
 
 
 def gen(ch, tier):
-    kind = ch.choice('kind', ('mac0-256', 'mac0-384', 'mac0-512', 'foreign', 'foreign', 'mac0-256'))
+    kind = ch.choice('kind', ('mac0-256', 'mac0-384', 'mac0-512', 'foreign', 'foreign', 'mac0-256', 'sign1-chain', 'sign1-chain'))
     plan = dict(scenario='bpsec_bib', kind=kind, plen=ch.choice('plen', (1, 8, 40)), tgt_ext=ch.coin('tgtext', 1, 3),
                 others=ch.weighted('others', (2, 3, 1)), pri_crc=ch.choice('pc', (0, 0, 2, 1)), blk_crc=ch.choice('bc', (0, 0, 1, 2)),
                 window=ch.pick('window', 1 << 16), wsize=24 if tier == 'quick' else 96, accept=ch.coin('accept', 1, 2),
@@ -47,10 +50,17 @@ def _policy(plan):
     targets = [1, 192] if plan['tgt_ext'] else [1]
     if kind.startswith('mac0-'):
         ops = [dict(type='bib', kid='mac' + kind[5:])]
+    elif kind.startswith('sign1'):
+        # COSE_Sign1 (ES256) with the certificate chain (x5chain) or only its thumbprint (x5t) as key identity
+        ops = [dict(type='bib', kid='PEM')]
     elif kind.startswith('mac-kw'):
         ops = [dict(type='bib', kid='kw' + kind[6:], content_alg='HMAC256', content_key='5a' * 32)]
     else:
         return []
+    if kind.startswith('sign1') and plan['tgt_ext']:
+        # a signature over the payload and a MAC over the extension block, from two associations, in one integrity block
+        pair = [dict(src='.*', dst='.*', targets=[1], ops=ops), dict(src='.*', dst='.*', targets=[192], ops=[dict(type='bib', kid='mac256')])]
+        return pair if plan.get('split_assoc') else pair[::-1]
     if plan['tgt_ext'] and plan.get('split_assoc'):
         # two associations, the one for the extension block listed first: operations are not in ascending target order
         return [dict(src='.*', dst='.*', targets=[192], ops=ops), dict(src='.*', dst='.*', targets=[1], ops=ops)]
@@ -121,8 +131,19 @@ class Run:
     pass
 
 
+def _pki(plan):
+    ''' (source pki, destination pki) for the signing kinds: the receiver's trust root plays the role of the key. '''
+    if not plan['kind'].startswith('sign1'):
+        return (None, None)
+    chain = plan['kind'] == 'sign1-chain'
+    trust = {'right': 'right', 'wrong': 'wrong', 'missing': None}[plan['dst_key']]
+    return (dict(sign=True, include_chain=chain, source='dtn://s/'),
+            dict(sign=False, include_chain=chain, source='dtn://s/', trust=trust, knows_end_cert=not chain))
+
+
 def execute(plan, sched, verbose=False):
-    har = sc.make_world(sched, _policy(plan), _dst_keys(plan), plan['accept'], verbose)
+    (src_pki, dst_pki) = _pki(plan)
+    har = sc.make_world(sched, _policy(plan), _dst_keys(plan), plan['accept'], verbose, src_pki=src_pki, dst_pki=dst_pki)
     run = Run()
     run.har = har
     run.wld = har.wld
@@ -152,6 +173,10 @@ def classify(orig, alt_bytes, plan):
         return ('other', {'malformed'}, set())
     labels = sc.describe_change(orig, alt)
     (bib, asb, scope) = _scope_of(orig)
+    if not [blk for blk in alt['blocks'] if blk['num'] == bib['num'] and blk['type'] == rfc9171.TYPE_BIB]:
+        # the alteration removed the integrity block itself (for example a length head that now swallows it, or an
+        # early end of the block array): nothing is left to verify, which is outside this property
+        return ('other', labels | {'bib-removed'}, set())
     targets = set(asb['targets'])
     secnums = set(blk['num'] for blk in orig['blocks'] if blk['type'] in (rfc9171.TYPE_BIB, rfc9171.TYPE_BCB))
     named = set(key for key in scope if key > 0)
@@ -263,7 +288,8 @@ def field_alterations(orig, plan):
 def _drive(run, plan, har):
     stats = run.stats
     cfg = bc.digest({key: plan[key] for key in ('kind', 'plen', 'tgt_ext', 'split_assoc', 'others', 'pri_crc', 'blk_crc', 'dst_key', 'accept') if key in plan} | {'scope': plan.get('scope')})
-    kindtag = 'kind.' + ('mac0' if plan['kind'].startswith('mac0') else ('mac-kw' if plan['kind'] == 'foreign-kw' else 'foreign'))
+    kindtag = 'kind.' + ('mac0' if plan['kind'].startswith('mac0') else ('sign1' if plan['kind'].startswith('sign1') else (
+        'mac-kw' if plan['kind'] == 'foreign-kw' else 'foreign')))
     stats[kindtag] = 1
     if plan.get('split_assoc') and not plan['kind'].startswith('foreign'):
         stats['kind.split_assoc'] = 1
